@@ -20,6 +20,7 @@ import (
 	"sort"
 	"strings"
 	"sync"
+	"time"
 
 	"github.com/google/pprof/internal/plugin"
 	"github.com/google/pprof/internal/zzverif/vdrv"
@@ -300,6 +301,51 @@ type resp struct {
 	body []byte
 }
 
+// settingsUsable: after a settings request that must be refused (deleting a configuration that does not exist) the
+// web session keeps answering settings requests - each within a deadline (C09: a web session stays usable afterwards)
+func settingsUsable() {
+	withServer(func(w *webServer) {
+		step := func(rq string, wantOK bool) bool {
+			type res struct {
+				code int
+				pv   interface{}
+			}
+			done := make(chan res, 1)
+			go func() {
+				code, _, pv := w.do(rq)
+				done <- res{code, pv}
+			}()
+			select {
+			case r := <-done:
+				if r.pv != nil {
+					run.Violate("web", "web-panic:"+rq, fmt.Sprint(r.pv), rq, nil)
+					return false
+				}
+				if wantOK && r.code != 200 {
+					run.Violate("web", "web-unusable:"+rq, fmt.Sprintf("status %d for a valid settings request after a refused one", r.code), rq, nil)
+				}
+				if !wantOK && r.code < 400 {
+					run.Violate("web", "web-accepted-bad:"+rq, fmt.Sprintf("status %d", r.code), rq, nil)
+				}
+				return true
+			case <-time.After(30 * time.Second):
+				run.Violate("web", "web-hang:"+rq, "the request did not return within 30 s; the web session is no longer usable", rq, nil)
+				return false
+			}
+		}
+		run.Count("settings-usable")
+		for _, st := range []struct {
+			rq string
+			ok bool
+		}{{"/deleteconfig?config=nosuchconfiguration", false}, {"/saveconfig?config=tmpcfg&f=g", true}, {"/deleteconfig?config=default", false},
+			{"/saveconfig?config=", false}, {"/saveconfig?config=tmpcfg2&h=f", true}, {"/deleteconfig?config=tmpcfg", true}, {"/deleteconfig?config=tmpcfg2", true}} {
+			if !step(st.rq, st.ok) {
+				return
+			}
+		}
+	})
+}
+
 func webPart(n int) {
 	// fresh responses
 	fresh := map[string]resp{}
@@ -425,6 +471,7 @@ func main() {
 		}
 	})
 	webPart(run.N)
+	settingsUsable()
 	keys := make([]string, 0)
 	for k := range refCache {
 		keys = append(keys, k)
